@@ -26,6 +26,10 @@ def check(run, prog, tier):
         "setter decision trees of twodspectrum_dictionary combined with the branches of _add_data, "
         "and table rules on the resolution conversion paths.")
     run.trusted_base = ["dict/list semantics of the storage", "numpy += on arrays adds element-wise"]
+    run.rule("C19-H", "views are selected on every request: no 'flag already set' short-cut over responses that can be changed independently, no view kept across additions", minimum=3)
+    from . import memorule
+    memorule.check(run, prog, "C19-H", ['quantarhei.spectroscopy.twodcontainer.TwoDResponseContainer', 'quantarhei.spectroscopy.twod2.TwoDResponse', 'quantarhei.spectroscopy.twod2.TwoDSpectrumBase'],
+                   "a view read through the container is then another signal than the one requested")
     run.rule("C19-A", "process and signal tables partition the pathway types", minimum=4)
     run.rule("C19-B", "every view is a sum over exactly the cells of its class", minimum=9)
     run.rule("C19-C", "add = read cell, add, write the same cell - or refuse (finite evaluation)", minimum=20)
